@@ -58,8 +58,9 @@ def register(const, values=None):
     name = str(const)
     if values is None:
         import random
-        r = random.Random(hash(name) & 0xffffffff)
-        values = [r.randint(-9, 9) or 1 for _ in range(_PT_SEEDS)]
+        import zlib
+        r = random.Random(zlib.crc32(name.encode()))          # deterministic across processes (str hashes are randomised)
+        values = [r.choice((-11, -7, -5, -3, -2, 2, 3, 5, 7, 11, 13)) + r.choice((0, 17, 34)) for _ in range(_PT_SEEDS)]
     CTX.symbols[name] = (const, values)
     return const
 
